@@ -14,7 +14,7 @@ PROP = "C18"
 LEVEL = "exploration"
 RULE = ("reduced cells (conforming-cell lists and the cell alphabet, kept iff their own basis vectors are the successive minima of the lattice) x "
         "every unimodular integer matrix with entries in {-1,0,1} under which the reduced basis keeps coefficients |u|,|v|,|w| <= 2 in the new "
-        "basis (all of them in thorough, those with at most 4 non-zero entries in quick) plus the 20 shears with coefficients +-2 x both modules. Oracle: same volume; the output "
+        "basis (at most 4 non-zero entries in quick, at most 6 in thorough) plus the 20 shears with coefficients +-2 x both modules. Oracle: same volume; the output "
         "lengths are the three successive minima of the lattice (computed in the harness over [-4,4]^3); an integer matrix T with det +-1 "
         "and T'G_in T = G_out exists (search over integer vectors of matching length). distinct_nontrivial = distinct (module, reduced cell, T) "
         "with T != identity.")
@@ -32,7 +32,7 @@ def unimodular(tier):
         d = int(round(np.linalg.det(M)))
         if abs(d) != 1:
             continue
-        if tier == "quick" and sum(1 for x in e if x) > 4:
+        if sum(1 for x in e if x) > (4 if tier == "quick" else 6):
             continue
         Mi = np.rint(np.linalg.inv(M)).astype(int)
         if np.max(np.abs(Mi)) > 2:
@@ -59,7 +59,7 @@ def base_cells(tier):
     for sysname, cc in (("triclinic", "standard"), ("monoclinic", "standard"), ("orthorhombic", "standard"), ("tetragonal", "standard"),
                         ("hexagonal", "standard"), ("trigonal", "rhombohedral"), ("cubic", "standard")):
         cs += alph.conforming_cells(sysname, cc, "thorough")
-    cs += [[3.0, 4.0, 5.0, 80.0, 95.0, 100.0], [9.07599708738, 6.05007626616, 43.921476668199631, 90.0, 90.0, 90.0], [4.0, 9.0, 30.0, 75.0, 85.0, 95.0]]
+    cs += [[5.0, 6.0, 7.0, 90.0, 90.0, 90.0], [3.0, 4.0, 5.0, 80.0, 95.0, 100.0], [9.07599708738, 6.05007626616, 43.921476668199631, 90.0, 90.0, 90.0], [4.0, 9.0, 30.0, 75.0, 85.0, 95.0]]
     if tier == "thorough":
         cs += alph.cells("quick", lens=[(3, 4, 5), (5.1, 6.3, 7.7)], angs=[60, 75, 90, 105, 120])
     out = []
@@ -200,6 +200,35 @@ def check_case(case):
                             break
             r.violation(key + ":lattice", "output = basis of the same lattice built from the shortest non-coplanar vectors",
                         {"minima": [l1, l2, l3], "input": cin}, out, 1e-9, dl, model=model)
+    # history: one cell array reused by the caller with new contents; argument kinds
+    from ..core import reuse
+
+    T2 = np.array([[1, 0, -2], [0, 1, 0], [0, 0, 1]])
+    c1 = O.cell_from_metric(G0)
+    c2 = O.cell_from_metric(T2.T @ (G0 * 4.0) @ T2)  # the same lattice scaled by 2, re-described
+    buf = np.array(c1, float)
+
+    def mutate(b):
+        b[:] = c2
+
+    def ok(out):
+        if isinstance(out, Exception):
+            return False
+        out = [float(x) for x in out]
+        return abs(math.sqrt(max(np.linalg.det(O.metric(out)), 0.0)) - 8 * vol0) <= 1e-9 * 8 * vol0
+    reuse(r, "%s:cell=%s:buffer" % (mname, [round(x, 6) for x in cell0]), mod.reduce_cell, buf, mutate, ok,
+          "reduce_cell uses the CURRENT contents of a cell array the caller reuses (volume of the second lattice)")
+    if all(abs(x - round(x)) < 1e-12 for x in cell0):
+        ic = [int(round(x)) for x in cell0]
+        base = [float(x) for x in mod.reduce_cell(np.array(ic, float))]
+        for kn, arg in (("int64 array", np.array(ic, dtype=np.int64)), ("list of ints", list(ic)), ("tuple of ints", tuple(ic)), ("float32 array", np.array(ic, dtype=np.float32))):
+            try:
+                out = [float(x) for x in mod.reduce_cell(arg)]
+                # a float32 argument is processed in single precision (cos(90 deg) = -4e-8): 1e-4 is the honest bound there
+                okk = max(abs(a - b) for a, b in zip(out, base)) <= (1e-4 if kn.startswith("float32") else 1e-9)
+            except Exception as ex:
+                out, okk = repr(ex), False
+            r.require(okk, "%s:cell=%s:arg=%s" % (mname, ic, kn), "reduce_cell gives the same cell for a %s argument" % kn, base, out)
     r.transitions = r.states
     return r
 
